@@ -46,6 +46,16 @@ class IntShim(metaclass=_Meta):
         if a or k:
             if isinstance(x, SymStr):
                 raise Unsupported("int(symbolic string, base)")
+            if type(x).__name__ == "SymText":
+                base = a[0] if a else k.get("base")
+                if x.kind == "dec" and not (x.up or x.lo) and base == 10:
+                    return x.payload
+                if x.kind == "dec" and not (x.up or x.lo) and base == 0:
+                    # Python literal rules: a decimal literal has no leading zeros unless it is zero
+                    if x.pad and x.payload != 0:
+                        raise ValueError("invalid literal for int() with base 0")
+                    return x.payload
+                raise Unsupported("int(symbolic text, base)")
             return _int(x, *a, **k)
         if isinstance(x, SymInt):
             return x
